@@ -58,12 +58,18 @@ fn build(case: &Value) -> (Mesh<Normal3>, Surf, bool, i64) {
         "capsule" => (Capsule { sectors: g("secs"), body_segments: g("segs"), cap_segments: g("caps"), radius: f("r") }.build(),
                       Surf::Capsule(f("r") as f64), true, 2),
         _ => {
-            // a partial sweep of a cylinder profile through the public az_range field
-            let mut l = Lathe::new(
-                (0..=g("segs")).map(|i| re::geom::vertex(re::math::point::pt2(f("r"), -1.0 + 2.0 * i as f32 / g("segs") as f32), re::math::vec::vec2(1.0, 0.0))),
-                g("secs"),
-            );
-            l.az_range = turns(f("az0"))..turns(f("az1"));
+            // a partial sweep of a cylinder profile through the public az_range field; the profile
+            // normals are given with length nl (they need not be unit vectors: build() normalises).
+            // lit = 1: the Lathe is written as a struct literal, all of whose fields are public
+            let nl = case.get("nl").and_then(|v| v.as_f64()).unwrap_or(1.0) as f32;
+            let pts = (0..=g("segs")).map(|i| re::geom::vertex(re::math::point::pt2(f("r"), -1.0 + 2.0 * i as f32 / g("segs") as f32), re::math::vec::vec2(nl, 0.0)));
+            let l = if case.get("lit").and_then(|v| v.as_i64()).unwrap_or(0) == 1 {
+                Lathe { points: pts.collect(), sectors: g("secs"), capped: false, az_range: turns(f("az0"))..turns(f("az1")) }
+            } else {
+                let mut l = Lathe::new(pts, g("secs"));
+                l.az_range = turns(f("az0"))..turns(f("az1"));
+                l
+            };
             (l.build(), Surf::None, false, 0)
         }
     }
@@ -229,7 +235,8 @@ pub fn gen(args: &Args, out: &mut dyn Write) {
             }
             // partial azimuth ranges of the lathe (open surfaces)
             for (a0, a1) in [(0.0, 0.25), (0.0, 0.5), (0.1, 0.9), (0.25, 1.25)] {
-                emit(out, json!({"solid": "lathe", "secs": secs, "segs": segs, "r": r, "az0": a0, "az1": a1}));
+                let nl = [1.0, 2.5, 0.25][(secs + segs) as usize % 3];
+                emit(out, json!({"solid": "lathe", "secs": secs, "segs": segs, "r": r, "az0": a0, "az1": a1, "nl": nl, "lit": (secs % 2)}));
             }
         }
     }
